@@ -201,15 +201,21 @@ example (db : String) (cs : List Nat) (h : Conway.lookupIn db 2 3 = .ok cs) :
 example : Bin.polyFromCoefs [1, 1, 0, 1] = 11 := by decide
 example (db : String) : Define.bin db 0 = .error .inputValue := rfl
 example (db : String) : Define.bin db 1 = .error .inputValue := by
-  unfold Define.bin; decide +kernel
+  have h : Auxmath.factorizePrimePower 1 = .error .inputValue := by decide +kernel
+  simp [Define.bin, h]
 example (db : String) : Define.bin db 9 = .error .inputValue := by
-  unfold Define.bin; decide +kernel
+  have h : Auxmath.factorizePrimePower 9 = .ok (3, 2) := by decide +kernel
+  simp [Define.bin, h]
 example (db : String) : Define.bin db 12 = .error .inputValue := by
-  unfold Define.bin; decide +kernel
+  have h : Auxmath.factorizePrimePower 12 = .error .inputValue := by decide +kernel
+  simp [Define.bin, h]
 example (db : String) : Define.bin db (2 ^ 33) = .error .inputTooLarge :=
   define_bin_too_large db (by norm_num) (by norm_num)
 example (db : String) : Define.bin db (2 ^ 63) = .error .inputTooLarge := by
-  unfold Define.bin; decide +kernel
+  have h : Auxmath.factorizePrimePower (2 ^ 63) = .ok (2, 63) := by decide +kernel
+  unfold Define.bin
+  rw [h]
+  simp [uintSize]
 
 /-! ## 3. extfield.Define -/
 
@@ -327,12 +333,17 @@ example : UPoly.ofNats ⟨primeOps 3, "a", none⟩ [2, 2, 1] = some [2, 2, 1] :=
 example : UPoly.normalize (primeOps 3) [2, 2, 1] = [2, 2, 1] := by decide +kernel
 example (db : String) : Define.ext db 0 = .error .inputValue := rfl
 example (db : String) : Define.ext db 1 = .error .inputValue := by
-  unfold Define.ext; decide +kernel
+  have h : Auxmath.factorizePrimePower 1 = .error .inputValue := by decide +kernel
+  simp [Define.ext, h]
 example (db : String) : Define.ext db 12 = .error .inputValue := by
-  unfold Define.ext; decide +kernel
+  have h : Auxmath.factorizePrimePower 12 = .error .inputValue := by decide +kernel
+  simp [Define.ext, h]
 -- a prime above 2^32 (2^32 + 15): InputTooLarge from the prime field
 example (db : String) : Define.ext db (2 ^ 32 + 15) = .error .inputTooLarge := by
-  unfold Define.ext; decide +kernel
+  have h : Auxmath.factorizePrimePower (2 ^ 32 + 15) = .ok (2 ^ 32 + 15, 1) := by decide +kernel
+  have h' : Prime.define (2 ^ 32 + 15) = .error .inputTooLarge := by decide +kernel
+  simp only [Define.ext, h, h']
+  rfl
 
 /-! ## 4. finitefield.Define: the implementation is chosen from `(p, n)` alone -/
 
@@ -403,13 +414,18 @@ example : Nat.Prime 2 ∧ 0 < 3 ∧ (2 : Nat) ^ 3 < 2 ^ 64 := by norm_num
 example : Nat.Prime 7 ∧ 7 ≠ 2 ∧ (7 : Nat) < 2 ^ 64 := by norm_num
 example : Nat.Prime 3 ∧ 3 ≠ 2 ∧ 2 ≤ 2 ∧ (3 : Nat) ^ 2 < 2 ^ 64 := by norm_num
 example (db : String) : Define.any db 7 = .ok (.prime 7) := by
-  unfold Define.any; decide +kernel
+  have h : Auxmath.factorizePrimePower 7 = .ok (7, 1) := by decide +kernel
+  have h' : Define.prime 7 = .ok (.prime 7) := by decide +kernel
+  simp [Define.any, h, h']
 example (db : String) : Define.any db 0 = .error .inputValue := by
-  unfold Define.any; decide +kernel
+  have h : Auxmath.factorizePrimePower 0 = .error .inputValue := by decide +kernel
+  simp [Define.any, h]
 example (db : String) : Define.any db 1 = .error .inputValue := by
-  unfold Define.any; decide +kernel
+  have h : Auxmath.factorizePrimePower 1 = .error .inputValue := by decide +kernel
+  simp [Define.any, h]
 example (db : String) : Define.any db 12 = .error .inputValue := by
-  unfold Define.any; decide +kernel
+  have h : Auxmath.factorizePrimePower 12 = .error .inputValue := by decide +kernel
+  simp [Define.any, h]
 example (db : String) : Define.any db 9 = Define.ext db 9 :=
   define_any_ext db (p := 3) (n := 2) (by norm_num) (by norm_num) (by norm_num) (by norm_num)
 example (db : String) : Define.any db 8 = Define.bin db 8 :=
